@@ -125,7 +125,55 @@ macro_rules! dispatch {
     };
 }
 
+/// Third-party writers without any field (zero-sized types): everything they write is constant. `ZstPlain` is the
+/// family member Ext<242,4> with count 0, SSRC 0x5A5A5A5A, no words, no padding; `ZstPadded` the same with 4 bytes
+/// of padding. (Boxing a zero-sized value does not allocate: all such boxes share one address.)
+pub const ZST_SSRC: u32 = 0x5A5A_5A5A;
+#[derive(Debug)]
+pub struct ZstPlain;
+#[derive(Debug)]
+pub struct ZstPadded;
+impl RtcpPacketWriter for ZstPlain {
+    fn calculate_size(&self) -> Result<usize, RtcpWriteError> {
+        Ok(8)
+    }
+    fn write_into_unchecked(&self, buf: &mut [u8]) -> usize {
+        writer::write_header_unchecked::<Ext<242, 4>>(0, 0, buf);
+        buf[4..8].copy_from_slice(&ZST_SSRC.to_be_bytes());
+        8
+    }
+    fn get_padding(&self) -> Option<u8> {
+        None
+    }
+}
+impl RtcpPacketWriter for ZstPadded {
+    fn calculate_size(&self) -> Result<usize, RtcpWriteError> {
+        Ok(12)
+    }
+    fn write_into_unchecked(&self, buf: &mut [u8]) -> usize {
+        writer::write_header_unchecked::<Ext<242, 4>>(4, 0, buf);
+        buf[4..8].copy_from_slice(&ZST_SSRC.to_be_bytes());
+        8 + writer::write_padding_unchecked(4, &mut buf[8..])
+    }
+    fn get_padding(&self) -> Option<u8> {
+        Some(4)
+    }
+}
+/// the configurations of the Ext family that the zero-sized writers stand for
+fn is_zst(pt: u8, min: usize, count: u8, ssrc: u32, words: &[u32], pad: u8) -> Option<bool> {
+    if pt == 242 && min == 4 && count == 0 && ssrc == ZST_SSRC && words.is_empty() && (pad == 0 || pad == 4) {
+        Some(pad == 4)
+    } else {
+        None
+    }
+}
+
 pub fn add_ext<'a>(cb: CompoundBuilder<'a>, pt: u8, min: usize, count: u8, ssrc: u32, words: &[u32], pad: u8) -> CompoundBuilder<'a> {
+    match is_zst(pt, min, count, ssrc, words, pad) {
+        Some(true) => return cb.add_packet(ZstPadded),
+        Some(false) => return cb.add_packet(ZstPlain),
+        None => {}
+    }
     macro_rules! go {
         ($PT:literal, $MIN:literal, ) => {
             cb.add_packet(ExtBuilder::<$PT, $MIN> { count, ssrc, words: words.to_vec(), padding: pad })
